@@ -838,12 +838,45 @@ func ruleStartTimeOnlyWhenUnset(c *chk.Ctx) {
 		}
 		c.Check(good, "TABLE.info", start, "start time set only when unset", s2.Pos(), "the start time is stored only on the IsZero edge", "the start function can overwrite a start time that is already set (e.g. on every restart): rpc.serverInfo would not report the configured start time")
 	})
+	// outside the start function the field is filled from the option only, never from the clock:
+	// a constructor that reads the clock would make the IsZero edge above dead
+	inStart := map[*ssa.Function]bool{}
+	for _, g := range c.P.Ext(start) {
+		inStart[g] = true
+	}
+	var fromClock func(v ssa.Value, depth int) bool
+	fromClock = func(v ssa.Value, depth int) bool {
+		if depth > 5 {
+			return false
+		}
+		for _, src := range c.P.Sources(v) {
+			call, ok := src.(*ssa.Call)
+			if !ok {
+				continue
+			}
+			if ir.IsCallTo(&call.Call, "time.Now") {
+				return true
+			}
+			for _, a := range call.Call.Args {
+				if fromClock(a, depth+1) {
+					return true
+				}
+			}
+		}
+		return false
+	}
+	for _, s2 := range c.P.FieldStores(field) {
+		if inStart[s2.Parent()] {
+			continue
+		}
+		c.Check(!fromClock(s2.Val, 0), "TABLE.info", s2.Parent(), "start time outside Start comes from the option", s2.Pos(), "the value stored does not come from the clock", "the server's start time is read from the clock outside the start function (e.g. when the server is constructed): it is then never unset when Start runs, and rpc.serverInfo reports the construction time instead of the time the server was started")
+	}
 }
 
 // ruleParseRequestsNormalisesID (C18, C02): ParseRequests reports the
 // null-normalised id, like the server's own dispatch does.
 func ruleParseRequestsNormalisesID(c *chk.Ctx) {
-	pr := c.M.Pkg.Func("ParseRequests")
+	pr := c.M.Func(c.M.Pkg, "ParseRequests")
 	if pr == nil {
 		c.Undecided("PROV.nullid", nil, "ruleParseRequestsNormalisesID: anchor", 0, "the code this rule is anchored in was not found (pr == nil)")
 		return
@@ -908,7 +941,7 @@ func ruleAcceptFailureEndsLoop(c *chk.Ctx) {
 		c.Undecided("PAIR.loop", nil, "ruleAcceptFailureEndsLoop: anchor", 0, "the code this rule is anchored in was not found (c.M.ServerPkg == nil)")
 		return
 	}
-	loop := c.M.ServerPkg.Func("Loop")
+	loop := c.M.Func(c.M.ServerPkg, "Loop")
 	if loop == nil {
 		c.Undecided("PAIR.loop", nil, "ruleAcceptFailureEndsLoop: anchor", 0, "the code this rule is anchored in was not found (loop == nil)")
 		return
@@ -1036,7 +1069,7 @@ func ruleMarshalOutputImmutable(c *chk.Ctx) {
 // handler's error, so a weaker test (Implements, AssignableTo) would hand a
 // concrete result that merely has an Error method back as an error.
 func ruleReportsErrorExact(c *chk.Ctx) {
-	f := c.M.HandlerPkg.Func("Check")
+	f := c.M.Func(c.M.HandlerPkg, "Check")
 	if f == nil {
 		c.Undecided("TABLE.check", nil, "ReportsError", 0, "Check not found")
 		return
@@ -1260,7 +1293,7 @@ func ruleBatchWaitsAll(c *chk.Ctx) {
 func rulePayloadSentVerbatim(c *chk.Ctx) {
 	n := 0
 	for _, f := range pkgFuncs(c, c.M.ChanPkg) {
-		if f.Name() != "Send" || f.Signature.Recv() == nil || len(f.Params) != 2 || f.Params[1].Type().String() != "[]byte" || f.Synthetic != "" {
+		if ir.BaseName(f) != "Send" || f.Signature.Recv() == nil || len(f.Params) != 2 || f.Params[1].Type().String() != "[]byte" || f.Synthetic != "" {
 			continue
 		}
 		n++
@@ -1423,7 +1456,7 @@ func ruleDecoderConfiguration(c *chk.Ctx) {
 // ErrClosed and net.ErrClosed), so that wrapped errors count, and never by
 // identity comparison with a sentinel.
 func ruleIsErrClosingTable(c *chk.Ctx) {
-	f := c.M.ChanPkg.Func("IsErrClosing")
+	f := c.M.Func(c.M.ChanPkg, "IsErrClosing")
 	if f == nil {
 		c.Undecided("TABLE.closing", nil, "IsErrClosing", 0, "not found")
 		return
@@ -1767,7 +1800,7 @@ func ruleBridgeParsesWholeBody(c *chk.Ctx) {
 	for _, f := range pkgFuncs(c, c.M.JhttpPkg) {
 		ir.Calls(f, func(ci ssa.CallInstruction) {
 			callee := ci.Common().StaticCallee()
-			if callee == nil || callee.Name() != "ParseRequests" || callee.Pkg != c.M.Pkg {
+			if callee == nil || ir.BaseName(callee) != "ParseRequests" || callee.Pkg != c.M.Pkg {
 				return
 			}
 			n++
@@ -2008,7 +2041,7 @@ func ruleAccessorDefaults(c *chk.Ctx, rule string, pkgs ...*ssa.Package) {
 // values that are not JSON strings (an unescaped quote, a raw control
 // character) and delivers them undecoded.
 func ruleQueryStringsWhole(c *chk.Ctx) {
-	f := c.M.JhttpPkg.Func("ParseQuery")
+	f := c.M.Func(c.M.JhttpPkg, "ParseQuery")
 	if f == nil {
 		c.Undecided("PROV.params", nil, "ParseQuery", 0, "not found")
 		return
@@ -2120,9 +2153,9 @@ func ruleHandedOffChannelNotClosed(c *chk.Ctx) {
 				}
 				var ch ssa.Value
 				switch {
-				case callee.Name() == "Start" && ir.RecvNamed(callee) == c.M.Server && len(ci.Common().Args) == 2:
+				case ir.BaseName(callee) == "Start" && ir.RecvNamed(callee) == c.M.Server && len(ci.Common().Args) == 2:
 					ch = ci.Common().Args[1]
-				case callee.Name() == "NewClient" && len(ci.Common().Args) >= 1:
+				case ir.BaseName(callee) == "NewClient" && len(ci.Common().Args) >= 1:
 					ch = ci.Common().Args[0]
 				default:
 					return
